@@ -213,6 +213,39 @@ func TestC11Deterministic(t *testing.T) {
 			t.Fatalf("C11 violated: URL.String differs for permuted selections: %q vs %q", ustr1, ustr2)
 		}
 
+		// The same document and URL objects again, after their lists of names
+		// were permuted in place (whatever marshaling remembered from the
+		// earlier calls must not matter).
+		var (
+			out3     []byte
+			err3     error
+			changed3 bool
+		)
+
+		if c.URL != nil && c.URL.Params != nil {
+			for _, k := range gen.SortedKeys(c.URL.Params.Fields) {
+				l := c.URL.Params.Fields[k]
+				copy(l, permuteStrings(t, l, "inplace-fields-"+k, &changed3))
+			}
+		}
+
+		for _, k := range gen.SortedKeys(c.Doc.RelData) {
+			l := c.Doc.RelData[k]
+			copy(l, permuteStrings(t, l, "inplace-reldata-"+k, &changed3))
+		}
+
+		if p := oracle.Try(func() { out3, err3 = jsonapi.MarshalDocument(c.Doc, c.URL) }); p != nil {
+			t.Fatalf("C11 violated: %s (after permuting in place)\ncase: %s", p, c)
+		}
+
+		if err3 != nil || !bytes.Equal(outs[0], out3) {
+			t.Fatalf("C11 violated: output changes when the lists of an already marshaled document and URL are permuted in place (%v)\ncase: %s\noriginal: %s\nafter: %s", err3, c, outs[0], out3)
+		}
+
+		if changed3 {
+			changed = true
+		}
+
 		if before != after {
 			t.Fatalf("C11 violated: marshaling changed observable state\nbefore: %s\nafter:  %s\ncase: %s", before, after, c)
 		}
